@@ -35,10 +35,12 @@ static const char* DOCS[] = {
     R"({"store":{"book":[{"category":"reference","author":"Nigel Rees","title":"Sayings of the Century","price":8.95},{"category":"fiction","author":"Evelyn Waugh","title":"Sword of Honour","price":12.99},{"category":"fiction","author":"Herman Melville","title":"Moby Dick","isbn":"0-553-21311-3","price":8.99},{"category":"fiction","author":"J. R. R. Tolkien","title":"The Lord of the Rings","isbn":"0-395-19395-8","price":22.99}],"bicycle":{"color":"red","price":19.95}},"expensive":10})",
     R"({"people":[{"name":"a","age":30,"tags":["x","y"]},{"name":"b","age":25,"tags":[]},{"name":"c","age":41,"tags":["z"]}],"m":{"k1":1,"k2":[1,2,3],"k3":{"deep":[{"x":1},{"x":2}]}},"s":"a string that is long enough to be stored on the heap","n":null,"big":18446744073709551616,"f":1.5})",
     R"([[1,2,[3,[4,[5]]]],{"a":{"b":{"c":{"d":[1,2,3]}}}},"text",12345678901234567890,-1.25e-3,true,null,{"":0,"k~/\"":1}])",
+    // per-item regular expressions taken from the document (function arguments that differ from call to call)
+    R"({"t":[{"text":"alpha,beta;gamma delta","sep":","},{"text":"alpha,beta;gamma delta","sep":";"},{"text":"alpha,beta;gamma delta","sep":" "},{"text":"a1b22c333d","sep":"[0-9]+"}],"text":"x-y-z","sep":"-","people":[{"name":"zed","age":1}]})",
     // doubles for which the shortest-digit algorithm gives up and the printf fallback of the number writer runs, extremes, a big integer and a big decimal
     R"([893.87625490769085,-4096.4000000000005,0.0067924430597862615,2.8176814629473077e-132,1.7976931348623157e308,4.9406564584124654e-324,0.30000000000000004,123456789.12345679,-2.2250738585072014e-308,1e23,9007199254740993,1e400,123456789012345678901234567890])",
 };
-static const char* JSONPATHS[] = {"$.store.book[*].author", "$..price", "$.store.book[?(@.price < 10)].title", "$..book[-1:]", "$.store.*", "$..book[?(@.isbn)]", "$.store.book[?(@.category == 'fiction' && @.price > 20)]", "$..*", "sum($..price)",
+static const char* JSONPATHS[] = {"tokenize($.text, $.sep)", "$.t[?(length(tokenize(@.text, @.sep)) > 2)].sep", "$.t[*].tokenize(@.text, @.sep)","$.store.book[*].author", "$..price", "$.store.book[?(@.price < 10)].title", "$..book[-1:]", "$.store.*", "$..book[?(@.isbn)]", "$.store.book[?(@.category == 'fiction' && @.price > 20)]", "$..*", "sum($..price)",
     "$.store.book[0,1]['author','title']", "$.people[?(@.age > 26)].name", "$..[?(@.x)]", "$.store.book[?(@.author =~ /Evelyn.*?/)]", "length($..book[*])", "$..book[?(@.price > $.expensive)].title", "$[0][2][1]", "$..d[1:]", "max($.store.book[*].price)", "keys($.m)", "$.people[*].tags[*]"};
 static const char* JMESPATHS[] = {"people[?age > `26`].name", "people[*].tags[]", "sort_by(people, &age)[].name", "max_by(people, &age).name", "merge(m, {k9: `3`})", "join(', ', people[].name)", "people[].{n: name, a: age}", "length(people)", "to_string(m)", "people | [0]", "keys(m)", "map(&name, people)",
     "store.book[?price < `10`].title", "store.book[*].price | sum(@)", "avg(store.book[].price)", "store.book[-1].author", "reverse(store.book[].title)", "contains(store.book[].category, 'fiction')", "type(@)", "[0][2][1]", "not_null(n, s)", "m.k3.deep[*].x", "sort(people[].name) | [0]", "starts_with(s, 'a')"};
